@@ -13,6 +13,31 @@ import pykoop
 _uid = itertools.count()
 TOL = 1e-9
 
+# ---- domain monitor: the round-trip clauses are claimed for angle features inside (-pi, pi] at the point where
+# their pre-processor sits (hypothesis of C01's theorems).  A generated pipeline can move data out of that range
+# (e.g. a StandardScaler in front of an AnglePreprocessor applied to data other than the fit data); the
+# harness records the largest |angle| any AnglePreprocessor.transform received, and a failing case with an
+# out-of-range angle is counted as outside the domain instead of being reported.
+ANGLE_MAX = [0.0]
+_angle_orig = pykoop.AnglePreprocessor._transform_one_ep
+
+
+def _angle_recording(self, X):
+    try:
+        idx = np.asarray(self.angle_features, dtype=int).ravel()
+        if idx.size and np.asarray(X).size:
+            ANGLE_MAX[0] = max(ANGLE_MAX[0], float(np.max(np.abs(np.asarray(X, dtype=float)[:, idx]))))
+    except Exception:  # noqa
+        pass
+    return _angle_orig(self, X)
+
+
+pykoop.AnglePreprocessor._transform_one_ep = _angle_recording
+
+
+def angle_out_of_domain():
+    return ANGLE_MAX[0] > np.pi - 1e-9
+
 
 # ------------------------------------------------------------ real pipelines
 def build_real(spec):
